@@ -4,6 +4,7 @@
   tied by virtual-time simulation of the real agents.
 -/
 import Nice.Model.Consent
+import Nice.Props.C13Send
 namespace Nice.Props.C13
 open Nice.Consent Nice.Gen
 
